@@ -39,6 +39,42 @@ Proof.
   destruct R as (R & _). exact (ro_sub _ _ _ _ _ R t c Hin).
 Qed.
 
+(* ... and whoever is in the logger set is a key of the module table, open, a logger and connected (since /repo
+   926cc4e; before it a client dying inside its own connection request could be added after its removal) *)
+Theorem C07_loggers_only_live : forall cfg fuel es u s, run cfg fuel es = Ok u s ->
+  forall c, In c (loggers s) ->
+    m_reg (find_mod c (mods s)) = true /\ m_closed (find_mod c (mods s)) = false /\
+    m_logger (find_mod c (mods s)) = true /\ m_connected (find_mod c (mods s)) = true.
+Proof.
+  intros cfg fuel es u s H c Hin. pose proof (run_safe cfg fuel es) as R. rewrite H in R.
+  destruct R as (R & _). pose proof (ro_loglive _ _ _ _ _ R c Hin) as Hr.
+  destruct (ro_log _ _ _ _ _ R c Hin Hr) as (A & B & C). auto.
+Qed.
+
+(* the three places a module is registered are erased together: a connection that is no longer a key of the module
+   table is in no subscriber list and not in the logger set, in every reachable state *)
+Theorem C07_departed_in_no_table : forall cfg fuel es u s, run cfg fuel es = Ok u s ->
+  forall c, m_reg (find_mod c (mods s)) = false ->
+    (forall t, ~ In c (alookup t (subs s))) /\ ~ In c (loggers s).
+Proof.
+  intros cfg fuel es u s H c Hr. split.
+  - intros t Hin. destruct (C07_lists_only_live cfg fuel es u s H _ _ Hin) as (H1 & _). congruence.
+  - intros Hin. destruct (C07_loggers_only_live cfg fuel es u s H _ Hin) as (H1 & _). congruence.
+Qed.
+
+(* two loggers connect, one subscribes and leaves: it is gone from all three tables, the other stays *)
+Example C07_tables_ex :
+  match run (mkConfig 60 true) 60%nat
+    [ERound true [] [] 0; ERound true [] [] 0;
+     ERound false [(1, IFrame (mkHdr MT_CONNECT 1 0 10 0 0 4 1) (InConnect 1 0));
+                   (2, IFrame (mkHdr MT_CONNECT 1 0 11 0 0 4 2) (InConnect 1 0))] [1;2] 0;
+     ERound false [(2, IFrame (mkHdr MT_SUBSCRIBE 1 0 0 0 0 4 7) (InSub 100))] [1;2] 0;
+     ERound false [(2, IEof)] [1;2] 0] with
+  | Ok _ s => (map m_reg (mods s), loggers s, alookup 100 (subs s))
+  | Crash _ _ => ([], [], [])
+  end = ([true; true; false], [1], []).
+Proof. vm_compute. reflexivity. Qed.
+
 Theorem C07_departed_not_recipient : forall cfg fuel es u s, run cfg fuel es = Ok u s ->
   forall c t, m_reg (find_mod c (mods s)) = false -> ~ In c (snapshot s t).
 Proof.
